@@ -1070,10 +1070,13 @@ static uint64_t ncases(void)
 }
 static void run_case(uint64_t idx)
 {
+    /* none of these containers ever needs memory: every second case runs with an allocator that refuses everything */
+    if (idx & 1) { vrt_fp_arm(NULL, 0, 1); VRT_COUNT("nomem.cases"); }
     if (idx < (uint64_t)nscopes) run_closure((int)idx);
     else if (idx < nscopes + nbig()) run_big(idx - nscopes);
     else if (idx < nscopes + nbig() + nswapuse()) run_swapuse(idx - nscopes - nbig());
     else run_random(idx - nscopes - nbig() - nswapuse());
+    vrt_fp_disarm();
 }
 static void winit(void)
 {
